@@ -34,6 +34,8 @@ class Ctx:
         self.depth_completed = None
         self._journal = open(journal, "w") if journal else None
         self.current = None
+        from mc import findings
+        self._known = [k for k in findings.load() if k["property"] == prop]
 
     # -- bookkeeping -------------------------------------------------------
     def case(self, desc):
@@ -75,19 +77,23 @@ class Ctx:
     def violation(self, sig, msg, **record):
         """Record a violation. `sig` identifies the *kind* of failure (used for
         de-duplication and for matching KNOWN_FINDINGS entries); the first
-        (= shortest, alphabets are ordered simplest-first) witness is kept."""
+        (= shortest, alphabets are ordered simplest-first) witness is kept.
+        Returns True when the signature matches a listed known finding (the
+        explorer may then keep extending the history instead of stopping)."""
+        known = any(k["re"].fullmatch(sig) for k in self._known)
         ent = self.violations.get(sig)
         if ent is not None:
             ent["count"] += 1
-            return
+            return known
         if len(self.violations) >= self.MAX_VIOLATIONS:
             self.violations.setdefault("__overflow__", {
                 "sig": "__overflow__", "msg": "more distinct violations",
                 "count": 0, "record": {}})["count"] += 1
-            return
+            return known
         record.setdefault("case", self.current)
         self.violations[sig] = {"sig": sig, "msg": msg, "count": 1,
                                 "record": record}
+        return known
 
     # -- output ------------------------------------------------------------
     def dump(self, out):
